@@ -3,6 +3,7 @@ package main
 // Discharging obligations: relevant facts, count-axiom instantiation, solver runs.
 
 import (
+	"fmt"
 	"strings"
 	"sync"
 )
@@ -206,6 +207,11 @@ type RunConfig struct {
 	TimeoutMs int
 	All       bool // all solvers must agree
 	Workers   int
+	// NoRetry: obligation names that are not retried after a timeout (the known findings: they are expected not to be proved)
+	NoRetry map[string]bool
+	// RetryFactor: an obligation that no solver decided within the budget is tried once more, alone, with this
+	// multiple of the budget (a loaded machine must not turn a slow proof into a failed one); 0 = no retry
+	RetryFactor int
 }
 
 func Discharge(obls []*Obligation, counts map[*Obligation][]*countDef, cfg RunConfig) {
@@ -322,6 +328,29 @@ func Discharge(obls []*Obligation, counts map[*Obligation][]*countDef, cfg RunCo
 	}
 	close(ch)
 	wg.Wait()
+	// second chance for timeouts, one at a time, with a longer budget
+	if cfg.RetryFactor > 1 {
+		for _, j := range jobs {
+			if j.vacuity || j.o.Verdict != VUnknown || cfg.NoRetry[j.o.Name] || len(j.scripts) == 0 {
+				continue
+			}
+			if j.o.Note == "solvers disagree" {
+				continue
+			}
+			sc := j.scripts[len(j.scripts)-1]
+			if len(sc) > 4<<20 {
+				continue
+			}
+			r := Solve(sc, cfg.TimeoutMs*cfg.RetryFactor, false)
+			j.o.Ms += r.Ms
+			if r.Verdict != VUnknown {
+				j.o.Verdict = r.Verdict
+				j.o.Solver = solverLabel(r)
+				j.o.Model = r.Model
+				j.o.Note = fmt.Sprintf("decided on the retry with %d times the budget", cfg.RetryFactor)
+			}
+		}
+	}
 }
 
 // solverLabel names the deciding solver(s); in the all-solvers mode every solver that answered is listed.
